@@ -229,18 +229,142 @@ theorem payload_fields_ok (f : File) (h : checkPayloadFields f = []) (d : Decl) 
   have := payload_go_ok d.fields none h1.1
   simpa using this
 
-/-- **No description violating E32–E36 or E39 reaches a back end**: whenever `analyze` returns a file, the
+
+/-- the identifiers of the fields that have one -/
+def fieldIds (fs : List Field) : List String := fs.filterMap Field.id?
+
+theorem fieldIdGo_nil_iff (seen : List (String × Field)) (fs : List Field) :
+    checkFieldIdentifiers.go seen fs = [] ↔
+      (fieldIds fs).Nodup ∧ ∀ id ∈ fieldIds fs, seen.lookup id = none := by
+  induction fs generalizing seen with
+  | nil => simp [checkFieldIdentifiers.go, fieldIds]
+  | cons fl fs ih =>
+    cases hid : fl.id? with
+    | none => simp [checkFieldIdentifiers.go, hid, ih, fieldIds]
+    | some id =>
+      simp only [checkFieldIdentifiers.go, hid]
+      cases hl : seen.lookup id with
+      | some prev =>
+        simp only [List.cons_ne_nil, false_iff, not_and]
+        intro _ hall
+        have := hall id (by simp [fieldIds, List.filterMap_cons, hid])
+        rw [hl] at this
+        cases this
+      | none =>
+        simp only [ih, fieldIds, List.filterMap_cons, hid, List.nodup_cons, List.mem_cons, forall_eq_or_imp, hl, true_and]
+        constructor
+        · rintro ⟨hnd, hall⟩
+          refine ⟨⟨?_, hnd⟩, ?_⟩
+          · intro hmem
+            have := hall id hmem
+            simp [List.lookup] at this
+          · intro x hx
+            have := hall x hx
+            by_cases hxe : x = id
+            · subst hxe; simp [List.lookup] at this
+            · have hne : (x == id) = false := by simpa using hxe
+              simpa [List.lookup, hne] using this
+        · rintro ⟨⟨hnot, hnd⟩, hall⟩
+          refine ⟨hnd, ?_⟩
+          intro x hx
+          have hxe : x ≠ id := fun h => hnot (h ▸ hx)
+          have hne : (x == id) = false := by simpa using hxe
+          simpa [List.lookup, hne] using hall x hx
+
+/-- **E11.**  If the field-identifier pass reports nothing, the named fields of every declaration have
+    distinct identifiers -/
+theorem field_identifiers_ok (f : File) (h : checkFieldIdentifiers f = []) (d : Decl) (hd : d ∈ f.decls) :
+    (fieldIds d.fields).Nodup := by
+  simp only [checkFieldIdentifiers, perDecl] at h
+  have := (flatMap_nil_iff _ _).mp h d hd
+  exact ((fieldIdGo_nil_iff [] d.fields).mp this).1
+
+/-- **E38.**  If the array pass reports nothing, no array with a constant count also has a size or count field -/
+theorem array_fields_ok (f : File) (h : checkArrayFields f = []) (d : Decl) (hd : d ∈ f.decls) (fl : Field)
+    (hfl : fl ∈ d.fields) (id : String) (w : Option Nat) (t m : Option String) (n : Nat)
+    (hdesc : fl.desc = .array id w t m (some n)) :
+    ∀ g ∈ d.fields, (∀ t' w', g.desc = .size t' w' → t' ≠ id) ∧ (∀ t' w', g.desc = .count t' w' → t' ≠ id) := by
+  simp only [checkArrayFields, perDecl] at h
+  have h1 := (flatMap_nil_iff _ _).mp h d hd
+  have h2 := (flatMap_nil_iff _ _).mp h1 fl hfl
+  simp only [hdesc] at h2
+  split at h2
+  · cases h2
+  · rename_i hfind
+    rw [List.find?_eq_none] at hfind
+    intro g hg
+    have := hfind g hg
+    constructor
+    · intro t' w' hgd; simp only [hgd] at this; simpa using this
+    · intro t' w' hgd; simp only [hgd] at this; simpa using this
+
+
+/-- what the size pass demands of one field: the target of a size field exists and is the payload / body or an
+    array; the target of a count or element-size field exists and is an array -/
+def sizeTargetOk (d : Decl) (fl : Field) : Prop :=
+  (∀ t w, fl.desc = .size t w → ∃ g, findSizeTarget d t = some g ∧
+      (g.desc = .body ∨ (∃ m, g.desc = .payload m) ∨ ∃ a b c e k, g.desc = .array a b c e k)) ∧
+  (∀ t w, fl.desc = .count t w → ∃ g, d.fields.find? (fun g => g.id? == some t) = some g ∧
+      ∃ a b c e k, g.desc = .array a b c e k) ∧
+  (∀ t w, fl.desc = .elementSize t w → ∃ g, d.fields.find? (fun g => g.id? == some t) = some g ∧
+      ∃ a b c e k, g.desc = .array a b c e k)
+
+theorem size_go_ok (d : Decl) : ∀ (fs : List Field) (sizeFor esizeFor : List (String × Field)),
+    checkSizeFields.go d sizeFor esizeFor fs = [] → ∀ fl ∈ fs, sizeTargetOk d fl
+  | [], _, _, _, fl, hfl => by cases hfl
+  | f0 :: fs, sizeFor, esizeFor, h, fl, hfl => by
+    simp only [checkSizeFields.go, List.append_eq_nil_iff] at h
+    obtain ⟨⟨_, hinv⟩, hrest⟩ := h
+    rcases List.mem_cons.mp hfl with rfl | hfl'
+    · refine ⟨?_, ?_, ?_⟩
+      · intro t w hdesc
+        simp only [hdesc] at hinv
+        cases hft : findSizeTarget d t with
+        | none => simp [hft] at hinv
+        | some g =>
+          simp only [hft] at hinv
+          refine ⟨g, rfl, ?_⟩
+          cases hg : g.desc <;> simp [hg] at hinv ⊢
+      · intro t w hdesc
+        simp only [hdesc] at hinv
+        cases hft : d.fields.find? (fun g => g.id? == some t) with
+        | none => simp [hft] at hinv
+        | some g =>
+          simp only [hft] at hinv
+          refine ⟨g, rfl, ?_⟩
+          cases hg : g.desc <;> simp [hg] at hinv ⊢
+      · intro t w hdesc
+        simp only [hdesc] at hinv
+        cases hft : d.fields.find? (fun g => g.id? == some t) with
+        | none => simp [hft] at hinv
+        | some g =>
+          simp only [hft] at hinv
+          refine ⟨g, rfl, ?_⟩
+          cases hg : g.desc <;> simp [hg] at hinv ⊢
+    · exact size_go_ok d fs _ _ hrest fl hfl'
+
+/-- **E24, E25, E27, E28, E30, E31.**  If the size pass reports nothing, every size / count / element-size field
+    of every declaration designates a field of that declaration of the right kind -/
+theorem size_fields_ok (f : File) (h : checkSizeFields f = []) (d : Decl) (hd : d ∈ f.decls) (fl : Field)
+    (hfl : fl ∈ d.fields) : sizeTargetOk d fl := by
+  simp only [checkSizeFields, perDecl] at h
+  exact size_go_ok d d.fields [] [] ((flatMap_nil_iff _ _).mp h d hd) fl hfl
+
+/-- **No description violating E11, E32–E36, E38 or E39 reaches a back end**: whenever `analyze` returns a file, the
     declarations it analyzed (`g`: the source declarations in dependency order) satisfy those rules as stated
     declaratively above — for every declaration and every field, at every position -/
 theorem analyze_ok_rules (f f' : File) (h : analyze f = .ok f') :
     ∃ g, checkDeclIdentifiers f = .ok g ∧ ∀ d ∈ g.decls,
-      paddingOk false d.fields = true ∧ payloadCount d.fields ≤ 1 ∧
+      (fieldIds d.fields).Nodup ∧ paddingOk false d.fields = true ∧ payloadCount d.fields ≤ 1 ∧
       ∀ fl ∈ d.fields, (∀ w v, fl.desc = .fixedScalar w v → v < 2 ^ w) ∧
         (∀ en tag, fl.desc = .fixedEnum en tag → ∃ e id tags w, lookupDecl g en = some e ∧ e.desc = .enum id tags w ∧
-          tags.any (·.id == tag) = true) := by
-  obtain ⟨_, g, hg, _, _, _, hfix, hpay, _, hpad⟩ := analyze_ok_first_passes f f' h
-  exact ⟨g, hg, fun d hd => ⟨padding_fields_ok g hpad d hd, payload_fields_ok g hpay d hd,
-    fun fl hfl => fixed_fields_ok g hfix d hd fl hfl⟩⟩
+          tags.any (·.id == tag) = true) ∧
+        (∀ id w t m n, fl.desc = .array id w t m (some n) →
+          ∀ s ∈ d.fields, (∀ t' w', s.desc = .size t' w' → t' ≠ id) ∧ (∀ t' w', s.desc = .count t' w' → t' ≠ id)) := by
+  obtain ⟨_, g, hg, hfid, _, _, hfix, hpay, harr, hpad⟩ := analyze_ok_first_passes f f' h
+  exact ⟨g, hg, fun d hd => ⟨field_identifiers_ok g hfid d hd, padding_fields_ok g hpad d hd, payload_fields_ok g hpay d hd,
+    fun fl hfl => ⟨(fixed_fields_ok g hfix d hd fl hfl).1, (fixed_fields_ok g hfix d hd fl hfl).2,
+      fun id w t m n hdesc => array_fields_ok g harr d hd fl hfl id w t m n hdesc⟩⟩⟩
 
 /-! non-vacuity: two consecutive `_padding_` fields after an array are not `paddingOk`, one is -/
 example : paddingOk false [{ desc := .array "x" (some 8) none none none, loc := default },
